@@ -29,6 +29,10 @@ func c19Alphabet(ch int) []apuEv {
 		evs = append(evs, apuEv{K: "w", A: r.len, V: t})
 	}
 	evs = append(evs, apuEv{K: "w", A: r.dac, V: r.dacOn}, apuEv{K: "w", A: r.dac, V: 0x00})
+	if ch != 2 {
+		// volume 0 with the envelope rising: the DAC is on (any of bits 3-7 set), and volume 7 falling
+		evs = append(evs, apuEv{K: "w", A: r.dac, V: 0x08}, apuEv{K: "w", A: r.dac, V: 0x07})
+	}
 	for _, v := range []uint8{0x00, 0x40, 0x80, 0xc0} {
 		evs = append(evs, apuEv{K: "w", A: r.ctl, V: v | r.freqHi})
 	}
@@ -285,7 +289,7 @@ func init() {
 	}
 	register("C19", "model_checking", func(c *Ctx) {
 		if c.R != nil {
-			c.R.Rule = "per channel: every sequence up to the depth bound over {length loads (4 values), DAC on/off, NRx4 in {00,40,80,C0}, NR10 in {00,11} (channel 1, frequency 7FF: the sweep-overflow-at-trigger path), NR52 off/on, time: 1 cycle, to 1 cycle before the next 512 Hz step, 2 cycles, 2,048 cycles} with at most 3 writes between time advances; NR52 is compared with the reference length/status model after every event and after EVERY machine cycle; plus complete expiry runs for (channel, length data t, first/second half of the frame-sequencer period, length enabled at / after the trigger, 3 skews) checked cycle by cycle until the channel switches off, and re-trigger runs with the counter at 0 (reload to 64/256, minus the extra clock in the first half)"
+			c.R.Rule = "per channel: every sequence up to the depth bound over {length loads (4 values), DAC on/off (NRx2 in {F0, 00, 08, 07}), NRx4 in {00,40,80,C0}, NR10 in {00,11} (channel 1, frequency 7FF: the sweep-overflow-at-trigger path), NR52 off/on, time: 1 cycle, to 1 cycle before the next 512 Hz step, 2 cycles, 2,048 cycles} with at most 3 writes between time advances; NR52 is compared with the reference length/status model after every event and after EVERY machine cycle; plus complete expiry runs for (channel, length data t, first/second half of the frame-sequencer period, length enabled at / after the trigger, 3 skews) checked cycle by cycle until the channel switches off, and re-trigger runs with the counter at 0 (reload to 64/256, minus the extra clock in the first half)"
 			c.R.Rule += "; secondary evidence: every edge of the TLC state graph of tla/APULen.tla (an independent restatement of one channel's length counter and status bit) replayed on each real channel; plus channel 1's sweep over time: every NR10 value x 10 frequencies triggered and run for 24 sweep clocks, NR10 rewritten while playing (park / revive without a new trigger), overflow racing length expiry; the status bit must drop in the machine cycle of the overflowing calculation of the reference sweep unit (shadow frequency, timer reloaded with the period or 8, enabled flag latched at the trigger) and not before"
 			c.R.Assumptions = []string{"frame-sequencer step times are observed from the implementation (phase is a convention) and checked to be exactly 2,048 machine cycles apart; the step index is the model's own (0 after power-on)", "start-up register/channel state is not asserted", "don't-cares: leaving negate mode after a calculation in it, re-trigger with the counter at its maximum without reload, wave-RAM access while channel 3 plays"}
 		}
